@@ -80,7 +80,7 @@ def main():
     dst = os.path.join("/verif/seeded", name)
     os.makedirs(dst, exist_ok=True)
     for f in ("patch.diff", "demo_test.go", "demo.go"):
-        if os.path.exists(os.path.join(src, f)):
+        if os.path.exists(os.path.join(src, f)) and os.path.abspath(src) != os.path.abspath(dst):
             shutil.copy(os.path.join(src, f), dst)
     meta = {}
     if os.path.exists(os.path.join(src, "meta.json")):
